@@ -494,7 +494,18 @@ def r8_transparent_transport(ctx) -> None:
                   construct=f'grpc.server:{",".join(bad)}', func=q)
       if d in ('grpc.insecure_channel', 'grpc.secure_channel'):
         n_chan += 1
-        ctx.ok('R8', f'{q.rsplit(".", 1)[-1]}: {d} at line {c.lineno}', c, 'plain channel')
+        opts = [k for k in c.keywords if k.arg in ('options', 'compression')] + ([c.args[1]] if d == 'grpc.insecure_channel' and len(c.args) > 1 else [])
+        retry = None
+        for o in opts:
+          txt = unparse(getattr(o, 'value', o), 0)
+          # options that change what a call does when it fails / how long it may take
+          if any(w in txt for w in ('service_config', 'enable_retries', 'retry', 'keepalive_timeout', 'max_receive_message_length',
+                                    'max_send_message_length', 'per_rpc_retry', 'hedging')):
+            retry = o
+        ctx.check(retry is None, 'R8', f'{q.rsplit(".", 1)[-1]}: {d} at line {c.lineno}', c, 'plain channel',
+                  f'`{unparse(retry, 70) if retry is not None else ""}` configures the channel to retry / limit calls: a failure that the in-process deployment '
+                  'reports (e.g. a policy that raises once) is silently repeated or turned into another status only when the service sits behind a channel',
+                  construct='channel-options', func=q)
       if d == 'grpc.intercept_channel':
         ctx.bad('R8', f'{q.rsplit(".", 1)[-1]}: grpc.intercept_channel at line {c.lineno}', c,
                 'calls on this channel are rewritten by a client interceptor (deadline / wait_for_ready / metadata): the remote '
